@@ -212,6 +212,33 @@ PROPS["C08"] = {
     "manifest": {"technique": "symbolic execution of the compiler's MIR (regenerated from /repo on every run) with z3 deciding every comparison of the symbolic results and proving the survivor-set equalities; counterexamples replayed natively"},
 }
 
+PROPS["C09"] = {
+    "features": [],
+    "modules": [],
+    "no_kani": True,
+    "needs_rand_090": False,
+    "mirgen": {"quick": (4, 3), "thorough": (6, 4)},
+    "functions": ["MIR of ec_core::generation::Generation::serial_next, its polonius closure and the child-making closure inside it",
+                  "MIR of ec_core::generation::Generation::par_next, its polonius closure and the child-making closure inside it"],
+    "bounds": {
+        "quick": "population size n a z3 integer 0..=4 (serial) / 0..=3 (parallel); the child maker is the environment: every call may fail (z3 Boolean per call) and logs what it is shown; "
+                 "serial: std's repeat_n/map/collect::<Result> in order with stop at the first error; parallel: rayon's repeatn/map_init/collect::<Result> BY ITS DOCUMENTED CONTRACT - every "
+                 "execution order of the items, every partition of the items over workers (one init() per worker), stop-or-continue after an error, any one of the errors reported. Per path: "
+                 "Ok iff no call failed; then exactly n children, child i from item i, replace the population and exactly n calls were made; Err is a failed call's error and the population "
+                 "field was never assigned; every call was shown the previous population while the Generation still held it; every call received a live handle from rand::rng() obtained during the step",
+        "thorough": "as quick with n <= 6 (serial) / n <= 4 (parallel)",
+    },
+    "outside": "thread interleavings INSIDE rayon (work stealing, splitting, the collect machinery): the parallel clause is decided at the level of rayon's contract only - a schedule-dependent bug inside "
+               "rayon, or in a child maker with interior state, is not covered; that `rand::rng()` handles on different threads are independently seeded generators and that words drawn from one handle "
+               "are independent is rand's contract (the check decides that each child gets such a live handle, not a clone / reseeded copy); FromIterator / FromParallelIterator of the population type "
+               "(modelled as 'the children in order'); population sizes above the bound",
+    "assumptions": ["rustc's MIR (nightly, -Zunpretty=mir) is the semantics of the source; the Python MIR interpreter stops (exit 2) on any statement or callee it has no rule for",
+                    "callee models (contracts, not executed): rand::rng(), polonius-the-crab's polonius / Try / Residual / Dependent helpers (by their definitions), std repeat_n + map + collect::<Result<P,_>>, "
+                    "rayon repeatn + map_init + collect::<Result<P,_>> (documented contract), Population::size; the child maker is fully nondeterministic"],
+    "manifest": {"technique": "symbolic execution of the compiler's MIR (regenerated from /repo on every run) of both stepping functions against a nondeterministic child maker and contract models of std / rayon / polonius; "
+                              "z3 decides every branch on the symbolic population size and failure pattern and proves the per-path assertions; counterexamples replayed natively"},
+}
+
 PROPS["C10"] = {
     "features": ["c10"],
     "modules": ["c10_xo::"],
